@@ -64,6 +64,10 @@ type ResourceSubscription struct {
 	subs      map[Subscriber]struct{}
 	resetting bool
 	links     []string
+	// waiting holds the subscribers still waiting to be Loaded by the response
+	// of the resourceSubscription's own get request, in case the response of a
+	// linked query loaded the resource first. Otherwise nil.
+	waiting map[Subscriber]struct{}
 	// version is the internal resource version, starting with 0 and bumped +1
 	// for each modifying event.
 	version uint
@@ -115,6 +119,7 @@ func (rs *ResourceSubscription) Unsubscribe(sub Subscriber) {
 	rs.e.Enqueue(func() {
 		if sub != nil {
 			delete(rs.subs, sub)
+			delete(rs.waiting, sub)
 		}
 
 		// Directly unregister unsubscribed queries
@@ -344,6 +349,18 @@ func (rs *ResourceSubscription) unregister() {
 }
 
 func (rs *ResourceSubscription) processGetResponse(payload []byte, err error) (nrs *ResourceSubscription, sublist []Subscriber) {
+	// Has the response of a linked query already loaded the resource, while
+	// this request was outstanding? Then the response, or error, is discarded,
+	// and only the subscribers still waiting for it are handed the resource.
+	if rs.state > stateRequested {
+		sublist = make([]Subscriber, 0, len(rs.waiting))
+		for sub := range rs.waiting {
+			sublist = append(sublist, sub)
+		}
+		rs.waiting = nil
+		return rs, sublist
+	}
+
 	var result *codec.GetResult
 	// Either we have an error making the request
 	// or an error in the service's response
@@ -391,6 +408,15 @@ func (rs *ResourceSubscription) processGetResponse(payload []byte, err error) (n
 			delete(rs.e.queries, rs.query)
 		}
 		nrs.links = append(nrs.links, rs.query)
+
+		// If the normalized query has its own get request outstanding, only
+		// the subscribers it has so far are to be Loaded by its response.
+		if nrs.state == stateRequested {
+			nrs.waiting = make(map[Subscriber]struct{}, len(nrs.subs))
+			for sub := range nrs.subs {
+				nrs.waiting[sub] = struct{}{}
+			}
+		}
 
 		// Copy over all subscribers
 		for sub := range rs.subs {
